@@ -195,3 +195,320 @@ def _norm_shape(s):
     for a, b in (("Cloned", "X"), ("Copied", "X"), ("cloned", "x"), ("copied", "x"), ("Clone", "X"), ("Copy", "X")):
         s = s.replace(a, b)
     return s
+
+
+# ---------------------------------------------------------------------------------------------------
+def _user_call(c):
+    return c is not None and not c.indirect and c.trait in ("std::ops::FnMut", "std::ops::FnOnce", "std::ops::Fn") \
+        and c.self_param is not None
+
+
+def rule_each(env, shared):
+    """EACH: for_each / enumerate_for_each / fold delegate unchanged to the default algorithms (no overrides); each
+    algorithm loops until the pull reports None (the only loop exit), every pulled element reaches exactly one call of the
+    user's function per iteration, indices are the pulled indices, fold threads its accumulator."""
+    out = []
+    R, F, ev = env.R, env.F, env.ev
+    algos = {}
+    for nm, order in (("for_each", (1, 2, 3)), ("enumerate_for_each", (1, 2, 3)), ("fold", None)):
+        d = F.trait_default(R.T_CON, nm)
+        key = "EACH|%s|delegation" % nm
+        if d is None:
+            out.append(Ob("EACH", key, "viol", "-", "default method %s not found" % nm))
+            continue
+        b = F.bodies[d]
+        ctx = env.ctx(b, None, None)
+        calls = [(bi, t, c) for bi, t, c in b.calls() if c.local and not c.trait]
+        if len(calls) != 1:
+            out.append(Ob("EACH", key, "viol", b.file_line(), "%s does not delegate to exactly one algorithm" % nm))
+            continue
+        bi, t, c = calls[0]
+        args = [unref(ev.operand(ctx, a)) for a in t["args"]]
+        params = sorted(a[1] for a in args if a[0] == "param")
+        unchanged = all(a[0] == "param" or a == ("deref", ("param", 1)) for a in args) and \
+            len(set(params)) == len(params) and len(args) == b.arg_count and \
+            (args[0] in (("param", 1), ("deref", ("param", 1)))) and args[1] == ("param", 2)
+        # result returned as is
+        r0 = ev.local(ctx, 0)
+        out.append(Ob("EACH", key, "ok" if unchanged else "viol", b.file_line(),
+                      "passes (self, chunk_size, ..) unchanged to the algorithm" if unchanged else
+                      "%s does not pass its arguments unchanged to the algorithm: %s" % (nm, [fmt(a) for a in args]), True))
+        algos[nm] = F.bodies.get(c.def_)
+        for adt, r in R.impl.items():
+            i = F.trait_impls.get((R.T_CON, adt))
+            k2 = "EACH|%s|not-overridden|%s" % (nm, r["name"])
+            okk = bool(i) and i["items"].get(nm) == "default"
+            out.append(Ob("EACH", k2, "ok" if okk else "viol", "-",
+                          "%s uses the default %s" % (r["name"], nm) if okk else "%s overrides %s" % (r["name"], nm)))
+    m1 = None
+    import r_m1
+    m1 = r_m1._m1(env)
+    bn = m1.buffered_next
+    for nm, a in algos.items():
+        if a is None:
+            out.append(Ob("EACH", "EACH|%s|algorithm" % nm, "viol", "-", "algorithm body of %s not found" % nm))
+            continue
+        # the algorithms are judged on their direct structure: calls are not inlined
+        from terms import Evaluator, Ctx
+        ev = Evaluator(F, inline=False)
+        ctx = Ctx(a, stack=(a.def_,))
+        loc = a.file_line()
+        sccs = [body for (h, body) in a.natural_loops()]
+        pulls = []
+        creations = []
+        for bi, t, c in a.calls():
+            if a.blocks[bi]["cleanup"]:
+                continue
+            if c.trait == R.T_CON and c.name in ("next", "next_id_and_value"):
+                pulls.append((bi, t, c, "single"))
+            elif bn is not None and c.def_ == bn.def_ or (c.local and c.name == "next" and bn is not None
+                                                          and c.path == bn.path):
+                pulls.append((bi, t, c, "buffered"))
+            elif c.trait == R.T_CON and c.name == "buffered_iter":
+                creations.append((bi, t, c))
+        k = "EACH|%s|buffered-iter-creation" % nm
+        if len(creations) != 1:
+            out.append(Ob("EACH", k, "viol", loc, "%s creates %d buffered iterators" % (nm, len(creations))))
+        else:
+            bi, t, c = creations[0]
+            cs = unref(ev.operand(ctx, t["args"][1]))
+            inloop = any(bi in s for s in sccs)
+            okk = cs == ("param", 2) and not inloop
+            out.append(Ob("EACH", k, "ok" if okk else "viol", a.file_line(t["loc"]),
+                          "one buffered iterator with the caller's chunk size, created outside the loop" if okk else
+                          "the buffered iterator of %s is created with chunk size %s%s" % (
+                              nm, fmt(cs), " inside the loop" if inloop else ""), True))
+        kinds = sorted(p[3] for p in pulls)
+        k = "EACH|%s|pulls" % nm
+        if kinds != ["buffered", "single"]:
+            out.append(Ob("EACH", k, "viol", loc, "%s does not have exactly one single-pull loop and one buffered loop: %s" % (
+                nm, kinds)))
+            continue
+        out.append(Ob("EACH", k, "ok", loc, "one single-pull arm and one buffered arm"))
+        for (bp, t, c, kind) in pulls:
+            key = "EACH|%s|%s-loop" % (nm, kind)
+            scc = [s for s in sccs if bp in s]
+            if not scc:
+                out.append(Ob("EACH", key, "viol", a.file_line(t["loc"]),
+                              "the %s pull of %s is not inside a loop: the iterator is not exhausted when the call returns"
+                              % (kind, nm)))
+                continue
+            # outermost SCC containing the pull
+            S = max(scc, key=len)
+            res_local = t["dest"]["l"]
+            # exit edges
+            bad_exit = None
+            none_exit = False
+            for x in S:
+                for y in a.succ(x):
+                    if y in S:
+                        continue
+                    tt = a.term(x)
+                    okexit = False
+                    if tt["k"] == "switch" and tt["discr"]["k"] in ("copy", "move"):
+                        dl = tt["discr"]["place"]["l"]
+                        for (dbb, si, kd, rv) in a.defs().get(dl, []):
+                            if kd == "assign" and rv["k"] == "discr" and rv["place"]["l"] == res_local:
+                                # the exit must not be the Some (value 1) target
+                                some_t = [bb for v, bb in tt["targets"] if v == 1]
+                                if y not in some_t:
+                                    okexit = True
+                                    none_exit = True
+                    if not okexit and not _only_panics(a, y):
+                        bad_exit = (x, y)
+            if bad_exit or not none_exit:
+                out.append(Ob("EACH", key + "|exit", "viol", a.file_line(t["loc"]),
+                              "the %s loop of %s can be left by an edge other than `pull returned None` (bb%s->bb%s): the call "
+                              "may return before the iterator is exhausted" % (kind, nm, bad_exit[0] if bad_exit else "?",
+                                                                                  bad_exit[1] if bad_exit else "?")))
+            else:
+                out.append(Ob("EACH", key + "|exit", "ok", a.file_line(t["loc"]), "the loop exits only when the pull reports None",
+                              True))
+            # one invocation per element
+            tgt = t["target"]
+            some_targets = []
+            stt = a.term(tgt) if tgt is not None else None
+            if stt and stt["k"] == "switch":
+                some_targets = [bb for v, bb in stt["targets"] if v == 1]
+            ucalls = [(bi2, t2, c2) for bi2, t2, c2 in a.calls() if bi2 in S and _user_call(c2)]
+            fe = [(bi2, t2, c2) for bi2, t2, c2 in a.calls() if bi2 in S and c2.trait == "std::iter::Iterator"
+                  and c2.name == "for_each"]
+            k3 = key + "|one-call-per-element"
+            payload = ev.payload(ctx, ev.local(ctx, res_local))
+            if kind == "single":
+                good = False
+                if len(ucalls) == 1 and some_targets:
+                    bi2, t2, c2 = ucalls[0]
+                    mustpass = some_targets[0] == bi2 or not a.paths_avoiding(some_targets[0], {bp}, {bi2})
+                    argt = ev.operand(ctx, t2["args"][1])
+                    uses = fmt(payload) in fmt(argt) or any(x == payload for x in subterms(argt))
+                    good = mustpass and uses
+                out.append(Ob("EACH", k3, "ok" if good else "viol", a.file_line(t["loc"]),
+                              "each pulled element is passed to the function exactly once" if good else
+                              "in the single-pull loop of %s a pulled element does not reach exactly one call of the user's "
+                              "function on every path (%d calls in the loop)" % (nm, len(ucalls)), True))
+            else:
+                # chunk: values -> for_each(&mut f)  or inner loop over values(.enumerate()).next()
+                good = False
+                why = ""
+                vals = ("field", payload, 1, "values", None)
+                if len(fe) == 1 and not ucalls and some_targets:
+                    bi2, t2, c2 = fe[0]
+                    a0 = unref(ev.operand(ctx, t2["args"][0]))
+                    mustpass = some_targets[0] == bi2 or not a.paths_avoiding(some_targets[0], {bp}, {bi2})
+                    isvals = a0[0] == "field" and a0[2] == 1 and a0[1] == payload
+                    good = mustpass and isvals
+                    why = "chunk.values.for_each(f)"
+                elif len(ucalls) == 1 and some_targets:
+                    bi2, t2, c2 = ucalls[0]
+                    inner = [s for s in sccs if bi2 in s and len(s) < len(S)]
+                    if inner:
+                        I = min(inner, key=len)
+                        inexts = [(bi3, t3, c3) for bi3, t3, c3 in a.calls() if bi3 in I and c3.trait == "std::iter::Iterator"
+                                  and c3.name == "next"]
+                        if len(inexts) == 1:
+                            bi3, t3, c3 = inexts[0]
+                            src = fmt(ev.operand(ctx, t3["args"][0]))
+                            over_vals = fmt(payload) in src and ".values" in src
+                            # inner exits only on None of the inner next
+                            in_bad = False
+                            rl = t3["dest"]["l"]
+                            for x in I:
+                                for y in a.succ(x):
+                                    if y in I or _only_panics(a, y):
+                                        continue
+                                    tt = a.term(x)
+                                    okx = False
+                                    if tt["k"] == "switch" and tt["discr"]["k"] in ("copy", "move"):
+                                        dl = tt["discr"]["place"]["l"]
+                                        for (dbb, si, kd, rv) in a.defs().get(dl, []):
+                                            if kd == "assign" and rv["k"] == "discr" and rv["place"]["l"] == rl:
+                                                if y not in [bb for v, bb in tt["targets"] if v == 1]:
+                                                    okx = True
+                                    if not okx:
+                                        in_bad = True
+                            st3 = a.term(t3["target"]) if t3["target"] is not None else None
+                            some3 = [bb for v, bb in st3["targets"] if v == 1] if st3 and st3["k"] == "switch" else []
+                            mustpass = bool(some3) and (some3[0] == bi2 or not a.paths_avoiding(some3[0], {bi3}, {bi2}))
+                            # the inner loop itself must be passed on every path of the outer iteration
+                            outer_must = some_targets[0] in I or not a.paths_avoiding(some_targets[0], {bp}, I)
+                            good = over_vals and not in_bad and mustpass and outer_must
+                            why = "inner loop over chunk.values"
+                out.append(Ob("EACH", k3, "ok" if good else "viol", a.file_line(t["loc"]),
+                              "every element of every pulled chunk is passed to the function exactly once (%s)" % why if good else
+                              "in the buffered loop of %s the elements of a pulled chunk do not all reach exactly one call of the "
+                              "user's function" % nm, True))
+            # indices (enumerate_for_each)
+            if nm == "enumerate_for_each":
+                k4 = key + "|index"
+                good = False
+                detail = ""
+                if len(ucalls) == 1:
+                    bi2, t2, c2 = ucalls[0]
+                    tup = unref(ev.operand(ctx, t2["args"][1]))
+                    if tup[0] == "agg" and tup[1] == "tuple" and len(tup[2]) == 2:
+                        i0, v0 = unref(tup[2][0]), unref(tup[2][1])
+                        if kind == "single":
+                            good = i0[0] == "field" and i0[2] == 0 and i0[1] == payload and v0[0] == "field" and v0[2] == 1 \
+                                and v0[1] == payload
+                            detail = "f(next.idx, next.value)"
+                        else:
+                            if i0[0] == "bin" and i0[1] == "Add":
+                                x, y = unref(i0[2]), unref(i0[3])
+                                for bgn, off in ((x, y), (y, x)):
+                                    if not (bgn[0] == "field" and bgn[2] == 0 and bgn[1] == payload):
+                                        continue
+                                    if not (off[0] == "field" and off[2] == 0 and v0[0] == "field" and v0[2] == 1
+                                            and off[1] == v0[1]):
+                                        continue
+                                    E = off[1]
+                                    enum_ok = False
+                                    for z in subterms(E):
+                                        if z[0] == "call" and z[1] == "Iterator::enumerate" and z[2]:
+                                            a0 = unref(z[2][0])
+                                            if a0[0] == "field" and a0[2] == 1 and a0[1] == payload:
+                                                enum_ok = True
+                                    if enum_ok and "Iterator::next" in fmt(E):
+                                        good = True
+                                        detail = "f(chunk.begin_idx + i, value) with (i, value) from chunk.values.enumerate()"
+                out.append(Ob("EACH", k4, "ok" if good else "viol", a.file_line(t["loc"]),
+                              "index passed to the function is the pulled index: " + detail if good else
+                              "enumerate_for_each (%s arm) does not pass the pulled index with its own element to the function" % kind,
+                              True))
+        if nm == "fold":
+            k = "EACH|fold|accumulator"
+            good = False
+            # _0 is moved from acc; acc defs: neutral param and call_mut results
+            d0 = [x for x in a.defs().get(0, []) if x[2] == "assign"]
+            acc = None
+            if len(d0) == 1 and d0[0][3]["k"] == "use" and d0[0][3]["op"]["k"] in ("move", "copy") \
+                    and not d0[0][3]["op"]["place"]["p"]:
+                acc = d0[0][3]["op"]["place"]["l"]
+            if acc is not None:
+                defs = a.defs().get(acc, [])
+                init_ok = False
+                calls_ok = True
+                ncalls = 0
+                for (bb, si, kd, pl) in defs:
+                    if a.blocks[bb]["cleanup"]:
+                        continue
+                    if kd == "assign":
+                        v = unref(ev.rvalue(ctx, pl))
+                        if v[0] == "param":
+                            init_ok = True
+                            continue
+                        # acc = move d  where d is the destination of a call of the user's function
+                        src = pl["op"]["place"]["l"] if pl["k"] == "use" and pl["op"]["k"] in ("move", "copy") \
+                            and not pl["op"]["place"]["p"] else None
+                        cd = [x for x in a.defs().get(src, []) if x[2] == "call"] if src is not None else []
+                        if len(cd) != 1:
+                            calls_ok = False
+                            continue
+                        bb, si, kd, pl = cd[0]
+                    if kd == "call":
+                        c2 = a.callee(bb)
+                        if not _user_call(c2):
+                            calls_ok = False
+                            continue
+                        ncalls += 1
+                        tupop = pl["args"][1]
+                        # the tuple's first element must be the accumulator local itself
+                        tl = tupop["place"]["l"] if tupop["k"] in ("move", "copy") else None
+                        firstacc = False
+                        for (b2, s2, k2_, rv2) in a.defs().get(tl, []):
+                            if k2_ == "assign" and rv2["k"] == "aggregate" and rv2["ops"]:
+                                o0 = rv2["ops"][0]
+                                if o0["k"] in ("move", "copy"):
+                                    l0 = o0["place"]["l"]
+                                    # follow one copy
+                                    if l0 == acc:
+                                        firstacc = True
+                                    else:
+                                        for (b3, s3, k3_, rv3) in a.defs().get(l0, []):
+                                            if k3_ == "assign" and rv3["k"] == "use" and rv3["op"]["k"] in ("move", "copy") \
+                                                    and rv3["op"]["place"]["l"] == acc:
+                                                firstacc = True
+                        if not firstacc:
+                            calls_ok = False
+                ucount = len([1 for bi2, t2, c2 in a.calls() if _user_call(c2) and not a.blocks[bi2]["cleanup"]])
+                good = init_ok and calls_ok and ncalls == ucount and ncalls >= 2
+            out.append(Ob("EACH", k, "ok" if good else "viol", loc,
+                          "result = f(result, value) threads one accumulator from `neutral` to the returned value" if good else
+                          "fold does not thread a single accumulator (initialised with `neutral`, updated by every call of the "
+                          "function, returned at the end)", True))
+    return out
+
+
+def _only_panics(b, s):
+    seen = set()
+    st = [s]
+    while st:
+        x = st.pop()
+        if x in seen:
+            continue
+        seen.add(x)
+        t = b.term(x)
+        if t["k"] == "return":
+            return False
+        st.extend(b.succ(x))
+    return True
